@@ -219,7 +219,7 @@ func TestMetrics(t *testing.T) {
 				if len(c.sess) >= 3 {
 					t.Skip("enough sessions")
 				}
-				kind := rapid.SampledFrom([]string{"ok", "ok-discovery", "wrong-password", "status-error", "no-supported-suite", "bad-icv"}).Draw(t, "kind")
+				kind := rapid.SampledFrom([]string{"ok", "ok-discovery", "wrong-password", "status-error", "no-supported-suite", "bad-icv", "unusable-suite"}).Draw(t, "kind")
 				if c.udp && (kind == "ok-discovery" || kind == "no-supported-suite") {
 					kind = "ok"
 				}
@@ -243,6 +243,10 @@ func TestMetrics(t *testing.T) {
 					// the BMC holds a key-generating key the console does not know: RAKP2
 					// verifies (it depends on the password only), the RAKP4 ICV does not
 					c.b.KG = []byte("a BMC key the console lacks")[:20]
+				case "unusable-suite":
+					// the BMC accepts the suite and completes RAKP 1-4; only then does
+					// the library find it cannot run a session under it
+					opts.CipherSuites = []ipmi.CipherSuite{hx.LibSuite(ref.Suite{Auth: 1, Integ: 1, Conf: 0})}
 				case "wrong-password":
 					opts.Password = []byte("not the password")
 				case "status-error":
@@ -465,7 +469,7 @@ func TestMetrics(t *testing.T) {
 				case "retried", "expiry":
 					k := rapid.IntRange(1, 4).Draw(t, "k")
 					for i := 0; i < k; i++ {
-						o := rapid.SampledFrom([]hx.Outcome{hx.Busy, hx.TimeoutCC, hx.Garbage, hx.BadSig, hx.StrayOK, hx.StrayBusy}).Draw(t, "fault")
+						o := rapid.SampledFrom([]hx.Outcome{hx.Busy, hx.TimeoutCC, hx.Garbage, hx.BadSig, hx.StrayOK, hx.StrayBusy, hx.StraySetup, hx.StrayASF}).Draw(t, "fault")
 						if !inSession && o == hx.BadSig {
 							o = hx.Garbage
 						}
